@@ -187,6 +187,8 @@ def own_through_model(chk):
                     ln = "x"
                 lines.append(ln)
             d = rng.choice([1000000, 1500000, 40000])
+            if vsub.random() < 0.15:
+                d = 30000        # a cue shorter than a MicroDVD frame: `{25}{25}text` is still the MicroDVD writer's own output
             if i % 5 == 4:
                 # times as the SCC reader returns them: floats, whole or with a fraction of a microsecond
                 t = float(t) + rng.choice([0.0, 0.0, 0.3333333333, 0.5]); d = float(d)
